@@ -201,10 +201,26 @@ def run(ctx):
         for u in ("-", "~", "+", "!"):
             documents.append("import qmluic.QtWidgets\nQSpinBox { value: %s(%s) }\n" % (u, a))
     ctx.dist("doc-constant-arithmetic-edges", len(pairs) + 4 * len(edge))
+    # explicit ids that look like the names generated for id-less objects (label, label1, label2 ..., pushButton1), next to id-less objects of the same classes,
+    # duplicated ids included: naming the objects terminates whatever is reserved
+    from . import c10
+    os.environ["VERIF_EXTRA_METATYPES"] = c10.EXTRA
+    nid = 0
+    for k in range(120 if ctx.tier == "thorough" else 30):
+        t = c10.gen_tree(rng, 3, list(c10.ID_POOL), k % 4 == 0)
+        c10.flat(t, [])
+        documents.append(c10.to_qml(t) + "\n")
+        nid += 1
+    for ids in (["label1"], ["label", "label1"], ["label2", "label1"], ["label1", "label3", "label2"], ["label9", "label10"], ["label", "label2", "label4"]):
+        kids = "".join("    QLabel { }\n" for _ in range(3)) + "".join("    QLabel { id: %s }\n" % i for i in ids) + "    QLabel { }\n"
+        documents.append("import qmluic.QtWidgets\nQWidget {\n  QVBoxLayout {\n%s  }\n}\n" % kids)
+        documents.append("import qmluic.QtWidgets\nQWidget {\n%s}\n" % kids.replace("QLabel", "QPushButton").replace("label", "pushButton"))
+        nid += 2
+    ctx.dist("doc-ids-like-generated-names", nid)
     if ctx.replay and isinstance(ctx.replay.get("case"), str):
         documents = [ctx.replay["case"]]
     ctx.dist("doc-corpus", len(base)); ctx.dist("doc-mutant", len(base) * nmut); ctx.dist("doc-soup", 400 if ctx.tier == "thorough" else 60)
-    os.environ["VERIF_EXTRA_METATYPES"] = ""
+    os.environ["VERIF_EXTRA_METATYPES"] = c10.EXTRA
     outcomes = {}
     for mode in ("generate", "reject", "omit"):
         res = qml.run_docs(vh, documents, mode=mode, timeout=60)
